@@ -79,3 +79,52 @@ fn vk_c01_canary_codec() {
     kani::assume(s != d);
     assert!(Move::quiet(s, d).dst().idx() < 63); // must FAIL
 }
+
+//@ obligation: C17.expect_matching
+//@ property: C17
+//@ domain: bounded(list of <= 4 moves)
+//@ functions: chess/moves.rs::impl MoveListExt for MoveList / fn expect_matching
+//@ timeout: 900
+//@ mem_gb: 6
+//@ note: for every duplicate-free list of up to 4 moves and every (from, to, promotion) triple taken from one of them: the move returned carries exactly that triple and is an element of the list; since two legal moves never share the triple (C01.codec.injective + legality), it is THE move the GUI sent -- with its capture / en-passant / castling label as generated
+//@ assumes: the triple designates a listed move (the property quantifies over legal games; otherwise the function panics 'Illegal move')
+#[kani::proof]
+#[kani::unwind(6)]
+fn vk_c17_expect_matching() {
+    let mut list = MoveList::new();
+    let n: usize = kani::any();
+    kani::assume(1 <= n && n <= 4);
+    let mut ms = [Move::quiet(Square::from_index(0), Square::from_index(1)); 4];
+    let mut i = 0;
+    while i < 4 {
+        if i < n {
+            let (s, d) = (geo::any_square(), geo::any_square());
+            kani::assume(s != d);
+            let c: u8 = kani::any();
+            kani::assume(c < 6);
+            let p = any_promo();
+            ms[i] = match c {
+                0 => Move::quiet(s, d),
+                1 => Move::capture(s, d),
+                2 => Move::castles(s, d),
+                3 => Move::en_passant(s, d),
+                4 => Move::quiet_promotion(s, d, p),
+                _ => Move::capture_promotion(s, d, p),
+            };
+            // legal moves of one position never share (from, to, promotion)
+            let mut j = 0;
+            while j < i {
+                kani::assume(!(ms[j].src() == ms[i].src() && ms[j].dst() == ms[i].dst() && ms[j].promotion() == ms[i].promotion()));
+                j += 1;
+            }
+            list.push(ms[i]);
+        }
+        i += 1;
+    }
+    let k: usize = kani::any();
+    kani::assume(k < n);
+    let want = ms[k];
+    let got = list.expect_matching(want.src(), want.dst(), want.promotion());
+    kani::cover!(k == 3);
+    assert!(got == want);
+}
